@@ -475,6 +475,40 @@ func prop(c Case) error {
 		if err := checkPolygon(b1); err != nil {
 			return err
 		}
+		// a box that is kept: extended by the geometries, given a new extent with Set (one far
+		// point), and extended by the same objects once more - it covers them again
+		{
+			b4 := geom.NewBounds(geom.Layout(c.L0))
+			for _, t := range ts {
+				b4.Extend(t)
+			}
+			if l4 := b4.Layout(); l4 != geom.NoLayout {
+				args := make([]float64, 2*l4.Stride())
+				for i := range args {
+					args[i] = 12345
+				}
+				b4.Set(args...)
+				for _, t := range ts {
+					b4.Extend(t)
+				}
+				r4 := ref{}
+				r4.touch(dims(geom.Layout(c.L0)))
+				for i := range c.Gs {
+					r4.addGeom(&c.Gs[i])
+				}
+				for _, n := range dims(l4) {
+					x, ok := r4[n]
+					if !ok {
+						x = iv{math.Inf(1), math.Inf(-1)}
+					}
+					x.lo, x.hi = math.Min(x.lo, 12345), math.Max(x.hi, 12345)
+					r4[n] = x
+				}
+				if err := checkBounds("a box extended by the geometries, given the extent of one far point with Set and extended by the same geometries again", b4, want, r4); err != nil {
+					return err
+				}
+			}
+		}
 		// the box is that of the coordinates as they are now: x and y of every coordinate
 		// of every geometry exchanged in place, and a new box extended by the same objects
 		swapped := false
